@@ -19,16 +19,18 @@ func init() {
 			"T-clock — for every sort for which setResultContinue writes a token (derived from the program: LastModifiedDesc, CreatedDesc) the SAME corpus time function is used (i) as the sort key of the sorted candidate source picked for that sort (pickCandidateSource -> Corpus enumerator -> lazySortedPermanodes field -> pnTime as initialised in pkg/index, requested newest-first, flagged sorted), (ii) to compute the token time of the token's own ref (the last result), and (iii) in the continue matcher for the PermanodeContinueConstraint field that addContinueConstraint fills from the parsed token under that same sort; the sort default is fixed before the token is interpreted and the continue constraint is and-ed with the base constraint. " +
 			"T-tiebreak — byPermanodeTime.Less and the continue branch of PermanodeConstraint.blobMatches are evaluated abstractly over all 9 orderings (time <,=,> x ref <,=,>) and both must be the strict lexicographic order (time, then blob.Ref.Less): the matcher admits exactly the items that sort strictly after the token item; every sort in lazySortedPermanodes.sorted uses byPermanodeTime, reversed exactly when reverse is requested. " +
 			"T-codec — the token writer's format (literal prefix, integer verb, separator, ref verb) and the reader agree: same prefix and separator constants, the integer is written from a signed 64-bit UnixNano and parsed by a signed 64-bit base-10 parse, turned back into a time with time.Unix(0, n) (lossless), the ref part is parsed from behind the separator, and the reader's success results are those values. " +
+			"T-around — Handler.Query clears the result list on the path where an Around pivot was requested but no candidate equal to it matched. " +
 			"NOT decided: that the enumerator yields the slice in order, correctness of reversedCopy and of the sorted caches, the time functions' own values (only their identity), that blob.Parse inverts Ref.String, exactly-once coverage for a concrete world, effects of index mutation between pages, the 'around' window arithmetic, and unsorted (post-sorted) candidate sources, which never receive a token. Assumes a permanode time returned with ok=true is never the zero time.Time (the zero value is the 'unset' marker of PermanodeContinueConstraint).",
 		RuleDocs: map[string]string{
 			"T-clock":    "per continuable sort (cases of setResultContinue that write a token): time function of the sorted source == of the token writer == of the matcher mode filled by addContinueConstraint for that sort; plus key/ref consistency, newest-first, sorted flag, sort default before token interpretation, and-conjunction",
 			"T-tiebreak": "abstract evaluation over the 9 (time,ref) orderings of byPermanodeTime.Less and of the continue branch of PermanodeConstraint.blobMatches against the strict lexicographic order; sort calls in lazySortedPermanodes.sorted use byPermanodeTime with Reverse iff reverse",
+			"T-around":   "Handler.Query: the flag set where q.Around equals a candidate is tested after enumeration and res.Blobs is cleared where it is false",
 			"T-codec":    "writer format string of setResultContinue vs reader parsePermanodeContinueToken: prefix, separator, signedness/width/base of the integer, UnixNano <-> time.Unix(0,n), ref parsed behind the separator, results returned",
 		},
 		Run:       runC09,
 		DesignRef: "DESIGN.md §4 C09",
 		Technique: "static analysis: agreement of function values resolved under branch facts (value dependence over go/ssa), abstract evaluation of comparators over a finite order domain, writer/reader table agreement",
-		LevelText: "Decides structural necessary conditions only: one clock per continuable sort across source, token writer and continue matcher; sort comparator and continue matcher implement the same strict (time, ref) order; token writer and reader agree on format, signedness and unit. Does not decide exactly-once coverage for any concrete world, enumeration order of the slice, cache correctness, nor the 'around' window.",
+		LevelText: "Decides structural necessary conditions only: one clock per continuable sort across source, token writer and continue matcher; sort comparator and continue matcher implement the same strict (time, ref) order; token writer and reader agree on format, signedness and unit. Does not decide exactly-once coverage for any concrete world, enumeration order of the slice, cache correctness, nor the 'around' window arithmetic (only that a missed pivot yields nothing).",
 	})
 }
 
@@ -67,7 +69,7 @@ func c09NewCtx(p *Program, r *Reporter) *c09Ctx {
 	scope := p.Pkg("pkg/search").Types.Scope()
 	for _, n := range scope.Names() {
 		if c, ok := scope.Lookup(n).(*types.Const); ok && types.Identical(c.Type(), st) && c.Val().Kind() == constant.Int {
-			if v, ok := constant.Int64Val(c.Val()); ok && ast09Exported(n) {
+			if v, ok := constant.Int64Val(c.Val()); ok && c09Exported(n) {
 				cx.sortNames[v] = n
 			}
 		}
@@ -78,7 +80,7 @@ func c09NewCtx(p *Program, r *Reporter) *c09Ctx {
 	return cx
 }
 
-func ast09Exported(n string) bool { return n != "" && n[0] >= 'A' && n[0] <= 'Z' }
+func c09Exported(n string) bool { return n != "" && n[0] >= 'A' && n[0] <= 'Z' }
 
 func (cx *c09Ctx) sortName(k int64) string {
 	if n, ok := cx.sortNames[k]; ok {
@@ -863,7 +865,34 @@ func (cx *c09Ctx) checkComparatorOrder(fn *ssa.Function) c09OrderResult {
 				return c09RoleNone
 			}
 			var idx ssa.Value
-			switch b := f.Base.(type) {
+			base := f.Base
+			if al, ok := base.(*ssa.Alloc); ok && al.Referrers() != nil {
+				// `a := s[i]` kept in a local because its fields are addressed: follow its single store
+				var only *ssa.Store
+				n := 0
+				for _, u := range *al.Referrers() {
+					if st, ok := u.(*ssa.Store); ok && st.Addr == ssa.Value(al) {
+						only = st
+						n++
+					}
+				}
+				readOnly := true
+				for _, u := range *al.Referrers() {
+					fa, isFA := u.(*ssa.FieldAddr)
+					if !isFA || fa.Referrers() == nil {
+						continue
+					}
+					for _, u2 := range nonDebug(*fa.Referrers()) {
+						if ld, ok := u2.(*ssa.UnOp); !ok || ld.Op != token.MUL {
+							readOnly = false // a field of the copy is written or its address escapes
+						}
+					}
+				}
+				if n == 1 && readOnly {
+					base = only.Val
+				}
+			}
+			switch b := base.(type) {
 			case *ssa.IndexAddr:
 				idx = b.Index
 			case *ssa.UnOp:
@@ -1911,7 +1940,7 @@ func (cx *c09Ctx) checkConjunction() {
 		if lf, ok := c09LoadedField(originValue(v)); ok && lf.Owner != nil && lf.Owner.Obj() == cx.tQuery.Obj() && lf.Name == "Constraint" {
 			hasBase = true
 		}
-		if DependsOnStores09(v, cx) {
+		if c09HoldsContinue(v, cx) {
 			hasCont = true
 		}
 	}
@@ -1924,9 +1953,9 @@ func (cx *c09Ctx) checkConjunction() {
 	cx.r.Check(okp, "T-clock", key, cx.p.Pos(ops[0].Pos()), detail, detail)
 }
 
-// DependsOnStores09: v is a freshly allocated Constraint whose Permanode field
+// c09HoldsContinue: v is a freshly allocated Constraint whose Permanode field
 // holds a PermanodeConstraint whose Continue field is set.
-func DependsOnStores09(v ssa.Value, cx *c09Ctx) bool {
+func c09HoldsContinue(v ssa.Value, cx *c09Ctx) bool {
 	al, ok := originValue(v).(*ssa.Alloc)
 	if !ok || al.Referrers() == nil {
 		return false
@@ -1944,7 +1973,7 @@ func DependsOnStores09(v ssa.Value, cx *c09Ctx) bool {
 			if c09Is(st.Val.Type(), cx.tPCC) {
 				return true
 			}
-			if DependsOnStores09(st.Val, cx) {
+			if c09HoldsContinue(st.Val, cx) {
 				return true
 			}
 		}
@@ -1962,4 +1991,94 @@ func runC09(p *Program, r *Reporter) {
 	mf := ruleC09Tiebreak(cx, m)
 	ruleC09Clock(cx, w, m, mf)
 	ruleC09Codec(cx, w)
+	ruleC09Around(cx)
+}
+
+// ---------------------------------------------------------------------------
+// T-around: a pivot that was not found yields no results.
+
+func ruleC09Around(cx *c09Ctx) {
+	p, r := cx.p, cx.r
+	fn := p.Func("pkg/search", "Handler", "Query")
+	key := FuncKey(fn) + "#pivot-miss-clears-results"
+	defer r.Floor("T-around", 1)
+	isAroundEq := func(cond ssa.Value, val bool) bool {
+		bo, ok := cond.(*ssa.BinOp)
+		if !ok || !((bo.Op == token.EQL && val) || (bo.Op == token.NEQ && !val)) {
+			return false
+		}
+		for _, o := range []ssa.Value{bo.X, bo.Y} {
+			if lf, ok := c09LoadedField(originValue(o)); ok && lf.Owner != nil && lf.Owner.Obj() == cx.tQuery.Obj() && lf.Name == "Around" {
+				return true
+			}
+		}
+		return false
+	}
+	// (1) the "pivot found" flags: bool variables of Query set to true where q.Around == <candidate ref>
+	found := map[ssa.Value]bool{}
+	for _, f := range c09WithLits(fn) {
+		for _, b := range f.Blocks {
+			for _, in := range b.Instrs {
+				st, ok := in.(*ssa.Store)
+				if !ok {
+					continue
+				}
+				c, isC := st.Val.(*ssa.Const)
+				if !isC || c.Value == nil || c.Value.Kind() != constant.Bool || !constant.BoolVal(c.Value) {
+					continue
+				}
+				cell, ok := varOf(st.Addr)
+				if !ok {
+					continue
+				}
+				for _, ft := range FactsAt(b) {
+					if isAroundEq(ft.Cond, ft.Val) {
+						found[cell] = true
+					}
+				}
+			}
+		}
+	}
+	if len(found) == 0 {
+		r.Violation("T-around", key, p.Pos(fn.Pos()), "Query never records that the Around pivot was matched: a query whose pivot does not match cannot be told from one whose pivot does")
+		return
+	}
+	// (2) results are cleared where a flag is known false
+	var clears []*ssa.Store
+	for _, st := range c09StoresToField([]*ssa.Function{fn}, cx.tResult, "Blobs") {
+		if !IsNilConst(st.Val) {
+			continue
+		}
+		for _, ft := range FactsAt(st.Block()) {
+			cond, val := ft.Cond, ft.Val
+			for {
+				if u, ok := cond.(*ssa.UnOp); ok && u.Op == token.NOT {
+					cond, val = u.X, !val
+					continue
+				}
+				break
+			}
+			if ld, ok := cond.(*ssa.UnOp); ok && ld.Op == token.MUL && !val {
+				if cell, ok := varOf(ld.X); ok && found[cell] {
+					clears = append(clears, st)
+				}
+			}
+		}
+	}
+	if len(clears) == 0 {
+		r.Violation("T-around", key, p.Pos(fn.Pos()), "no `res.Blobs = nil` under `pivot not found`: an Around query whose pivot does not match returns an arbitrary window instead of nothing")
+		return
+	}
+	// (3) the clear precedes the point where results are used further (token, describe): it must not be
+	// reachable from a call that reads the results for the reply
+	st := clears[0]
+	okp, detail := true, "results are set to nil on the path where the Around pivot was wanted but never matched"
+	for _, c := range CallsIn(fn, false) {
+		if f := c.Callee(); f != nil && (f.Name() == "setResultContinue" || f.Name() == "DescribeLocked") {
+			if ReachableFrom(c.Instr, nil)[st] {
+				okp, detail = false, "results are cleared only after "+f.Name()+" already used them"
+			}
+		}
+	}
+	r.Check(okp, "T-around", key, p.Pos(st.Pos()), detail, detail)
 }
